@@ -164,6 +164,34 @@ func (e *c02env) judge(pp []byte, kind, pos string) {
 	k.Distinct(fmt.Sprintf("%s|%v|%v|%s|%s", e.s.Name(), e.init, e.pre, kind, pos))
 }
 
+// judgeFront: the altered datagram no longer announces SK in its header but still CONTAINS the SK payload of the
+// genuine message: whatever the receiver makes of it, it must not come back as an accepted message with the genuine
+// (or any decrypted) content unless the checksum was verified - and the checksum cannot verify (header and length
+// octets changed).  Outcome demanded: an error, and no Decrypt.
+func (e *c02env) judgeFront(pp []byte, kind string) {
+	k := e.k
+	e.tr.Reset()
+	k.Eval(1)
+	d, err, p := libUnprotect(pp, e.pre, e.kr, !e.init)
+	ev := e.tr.Snapshot()
+	if p != nil {
+		k.Violate("panic", "tampered: "+p.Sig(), "DecodeDecrypt panicked on a "+kind+" message", panicData(p, e.witness(pp, kind)))
+		return
+	}
+	if hasDecrypt(ev) {
+		k.Violate("decrypt-before-verify", "decrypt-on-altered/"+kind, "ciphertext of an altered message reached the cipher: "+e.tr.String(), e.witness(pp, kind))
+		return
+	}
+	if err == nil {
+		w := e.witness(pp, kind)
+		w["decoded"] = msgJSON(d)
+		k.Violate("accepted", "accepted/"+kind, "an altered message was accepted", w)
+		return
+	}
+	k.Count("rejected_"+kind, 1)
+	k.Distinct(fmt.Sprintf("%s|%v|%v|%s", e.s.Name(), e.init, e.pre, kind))
+}
+
 func (e *c02env) judgeGenuine(d *abs.Msg, err error, ev []mon.Event) {
 	k := e.k
 	if err != nil {
@@ -416,6 +444,23 @@ func c02Cell(k *core.Case, ci int, exhaustive bool) {
 				pp[o] = 0
 			}
 			e.judge(pp, "reframed", "SK-generic-header")
+		}
+	}
+	// an unsupported non-critical payload (header only, or with a short body) slipped in FRONT of the SK payload, the IKE
+	// header's first-payload octet pointing at it, all lengths consistent; also with one ciphertext bit flipped
+	for _, t := range []byte{49, 1, 32, 200, 255} {
+		for _, bl := range []int{0, 1, 8} {
+			ins := append([]byte{abs.PSK, 0, 0, byte(4 + bl)}, k.R.Bytes(bl)...)
+			pp := append(append(append([]byte{}, p[:28]...), ins...), p[28:]...)
+			pp[16] = t
+			n := len(pp)
+			pp[24], pp[25], pp[26], pp[27] = byte(n>>24), byte(n>>16), byte(n>>8), byte(n)
+			e.judgeFront(pp, "unsupported-payload-slipped-in-front-of-SK")
+			if len(pp) > 28+len(ins)+40 {
+				pp2 := append([]byte{}, pp...)
+				pp2[28+len(ins)+36] ^= 0x01
+				e.judgeFront(pp2, "unsupported-payload-slipped-in-front-of-SK+bitflip")
+			}
 		}
 	}
 	k.Count("reframed_sk_payloads", 1)
